@@ -315,9 +315,10 @@ def build_c(ast, unit, registry):
                     break
     # every repo callee must be accounted for
     missing = []
+    stub_rx = [x for x in unit.stubs if isinstance(x, str) and re.search(r'[\[\]+*^$]', x)]
     for f, _, _ in fns:
         for c in f.calls:
-            if c not in have and c not in missing:
+            if c not in have and c not in missing and not any(re.match(rx + '$', c) for rx in stub_rx):
                 missing.append(c)
     facts = {'target': tf.cname, 'src': tf.src, 'locals': tf.locals, 'loops': tf.loops,
              'calls': sorted(set(tf.calls)), 'libcalls': sorted(set(tf.libcalls)), 'replaced': replaced,
